@@ -278,6 +278,53 @@ impl Text {
                 check_changes(&all, &olds, &news, "iter_all_changes");
                 let per_op: Vec<Change<&SymTxt>> = ops.iter().flat_map(|op| diff.iter_changes(op)).collect();
                 check_changes(&per_op, &olds, &news, "ops().flat_map(iter_changes)");
+                // aliasing inputs: the old text against its own prefixes / suffix (slices of one
+                // buffer, starting at the same address or ending at the same address)
+                for cut in 1..=old.len().min(2) {
+                    for (a, b, what) in [
+                        (&old[..], &old[..old.len() - cut], "old text against its own prefix (same buffer)"),
+                        (&old[..old.len() - cut], &old[..], "a prefix of the old text against the whole (same buffer)"),
+                        (&old[..], &old[cut..], "old text against its own suffix (same buffer)"),
+                    ] {
+                        let (at, bt) = (SymTxt::new(a), SymTxt::new(b));
+                        let d2 = make_diff(s, at, bt);
+                        let (o2, n2) = (d2.old_slices().to_vec(), d2.new_slices().to_vec());
+                        check_partition(&o2, a, what);
+                        check_partition(&n2, b, what);
+                        let all2: Vec<Change<&SymTxt>> = d2.iter_all_changes().collect();
+                        check_changes(&all2, &o2, &n2, what);
+                        engine::witness("paths_with_aliasing_inputs");
+                    }
+                }
+                // the same aliasing inputs on the real str type: the path's model instantiated as
+                // a String, diffed against its own prefixes (slices of one buffer); checked by
+                // plain reconstruction
+                engine::pin_model();
+                let os = String::from_utf8(symtxt::render(&old)).unwrap();
+                let cuts: Vec<usize> = os.char_indices().map(|x| x.0).rev().take(2).collect();
+                for &c in &cuts {
+                    for (a, b) in [(&os[..], &os[..c]), (&os[..c], &os[..])] {
+                        let mut cfg = TextDiff::configure();
+                        cfg.algorithm(s.alg);
+                        let d3 = match s.tok {
+                            Tok::Lines => cfg.diff_lines(a, b),
+                            Tok::Words => cfg.diff_words(a, b),
+                            Tok::Chars => cfg.diff_chars(a, b),
+                            Tok::UnicodeWords => cfg.diff_unicode_words(a, b),
+                            Tok::Graphemes => cfg.diff_graphemes(a, b),
+                        };
+                        let (mut ra, mut rb) = (String::new(), String::new());
+                        for ch in d3.iter_all_changes() {
+                            if ch.tag() != ChangeTag::Insert {
+                                ra.push_str(ch.value());
+                            }
+                            if ch.tag() != ChangeTag::Delete {
+                                rb.push_str(ch.value());
+                            }
+                        }
+                        claim!(ra == a && rb == b, "real str {:?} against {:?} (slices of one buffer): the changes reconstruct {:?} / {:?}", a, b, ra, rb);
+                    }
+                }
             }
             Which::C13 => {
                 let all = changes_key(&diff.iter_all_changes().collect::<Vec<_>>());
@@ -354,6 +401,23 @@ impl Text {
                 let direct = capture_diff_slices(s.alg, &olds, &news);
                 claim!(ops == direct, "text diff ops {:?} differ from capture_diff_slices over the same tokens {:?}", ops, direct);
                 claim!(diff.algorithm() == s.alg, "diff.algorithm() reports {:?}, configured {:?}", diff.algorithm(), s.alg);
+                {
+                    // a deadline that has already passed (virtual clock: always expired)
+                    similar::verif_clock::install(Some(Box::new(|_| true)));
+                    let mut cfg = TextDiff::configure();
+                    cfg.algorithm(s.alg);
+                    cfg.deadline(any_instant().unwrap());
+                    let d2 = match s.tok {
+                        Tok::Lines => cfg.diff_lines(ot, nt),
+                        Tok::Words => cfg.diff_words(ot, nt),
+                        Tok::Chars => cfg.diff_chars(ot, nt),
+                        Tok::UnicodeWords => cfg.diff_unicode_words(ot, nt),
+                        Tok::Graphemes => cfg.diff_graphemes(ot, nt),
+                    };
+                    let direct2 = similar::capture_diff_slices_deadline(s.alg, &olds, &news, any_instant());
+                    similar::verif_clock::install(None);
+                    claim!(d2.ops() == &direct2[..], "with a deadline that has already passed the text diff ops {:?} differ from capture_diff_slices_deadline over the same tokens {:?}", d2.ops(), direct2);
+                }
                 let expect_nl = s.nl_override.unwrap_or(s.tok == Tok::Lines);
                 claim!(diff.newline_terminated() == expect_nl, "newline_terminated() is {} for {} with override {:?}", diff.newline_terminated(), s.tok.name(), s.nl_override);
                 // from_* constructors are configure() with defaults
@@ -604,13 +668,13 @@ impl Prop for Text {
         };
         Meta {
             functions,
-            bounds: format!("texts = every pattern of length <= {} over {{ordinary char, space, LF, CR, punctuation}} (thorough: also every pattern of length 4 over {{ordinary char, LF, space}} for the line / word / char tokenizers) plus {} longer patterns (up to 8 characters / 5 tokens, some with two-unit characters), all ordered pairs, x 5 tokenizers x 3 algorithms; ordinary characters are symbolic (unbounded alphabet), classes are concrete; the element type is SymTxt, so the generic text layer runs symbolically{}", match tier { Tier::Quick => 2, Tier::Thorough => 3 }, EXTRA.len(), if self.0 == Which::C13 { "; every iterator (iter_all_changes, TextDiff::iter_changes, DiffOp::iter_changes, DiffOp::iter_slices, UnifiedDiffHunk::iter_changes) is also driven by next() x a then nth(b) (a, b in 0..=4), count(), last(), size_hint(), step_by(2) and skip(1) and must show the same items" } else { "" }),
+            bounds: format!("texts = every pattern of length <= {} over {{ordinary char, space, LF, CR, punctuation}} (thorough: also every pattern of length 4 over {{ordinary char, LF, space}} for the line / word / char tokenizers) plus {} longer patterns (up to 8 characters / 5 tokens, some with two-unit characters), all ordered pairs, x 5 tokenizers x 3 algorithms; ordinary characters are symbolic (unbounded alphabet), classes are concrete; the element type is SymTxt, so the generic text layer runs symbolically{}", match tier { Tier::Quick => 2, Tier::Thorough => 3 }, EXTRA.len(), if self.0 == Which::C13 { "; every iterator (iter_all_changes, TextDiff::iter_changes, DiffOp::iter_changes, DiffOp::iter_slices, UnifiedDiffHunk::iter_changes) is also driven by next() x a then nth(b) (a, b in 0..=4), count(), last(), size_hint(), step_by(2) and skip(1) and must show the same items" } else if self.0 == Which::C04 { "; every old text is also diffed against its own prefixes and suffix taken from the same buffer (aliasing inputs, cut 1 and 2 characters), symbolically on SymTxt and, instantiated with the path's model, on real str slices of one String" } else { "" }),
             outside: "the tokenizers of str and [u8] themselves (decided by Kani in C06; unicode words / graphemes of the real types are not decided); longer texts; the >100-token path of TextDiffConfig::diff is covered separately (C14 skeleton family)".into(),
             assumptions: vec![
                 "SymTxt's own tokenizers partition the text (checked on every path) and follow the documented shapes; they stand in for the str/[u8] tokenizers, which the generic layer only calls through the DiffableStr trait".into(),
                 "values are compared by pointer identity (same sub-slice of the caller's text), which is stronger than byte equality".into(),
             ],
-            required_witnesses: vec!["paths_with_changes", "paths_with_equal_ops", "paths_with_two_or_more_tokens_per_side"],
+            required_witnesses: if self.0 == Which::C04 { vec!["paths_with_changes", "paths_with_equal_ops", "paths_with_two_or_more_tokens_per_side", "paths_with_aliasing_inputs"] } else { vec!["paths_with_changes", "paths_with_equal_ops", "paths_with_two_or_more_tokens_per_side"] },
             rule: "one state = one explored path (equality pattern of the ordinary characters) of one shape".into(),
         }
     }
@@ -930,6 +994,23 @@ impl Prop for TextBig {
             olds.len(), news.len(), ops, direct
         );
         claim!(diff.algorithm() == s.alg, "algorithm() reports {:?}", diff.algorithm());
+        // the same with a deadline that has already passed (virtual clock: always expired): the
+        // text diff and the direct diff of the token slices give up at the same points
+        {
+            similar::verif_clock::install(Some(Box::new(|_| true)));
+            let mut cfg = TextDiff::configure();
+            cfg.algorithm(s.alg);
+            cfg.deadline(any_instant().unwrap());
+            let d2 = if s.tok == Tok::Lines { cfg.diff_lines(ot, nt) } else { cfg.diff_chars(ot, nt) };
+            let direct2 = similar::capture_diff_slices_deadline(s.alg, &olds, &news, any_instant());
+            similar::verif_clock::install(None);
+            claim!(
+                d2.ops() == &direct2[..],
+                "with a deadline that has already passed and {} / {} tokens the text diff ops differ from capture_diff_slices_deadline over the same tokens: {:?} vs {:?}",
+                olds.len(), news.len(), d2.ops(), direct2
+            );
+            engine::witness("paths_with_an_expired_deadline");
+        }
         // the ops are a valid script for the token sequences (tokens compared as whole SymTxt)
         let (mut oc, mut nc) = (0usize, 0usize);
         for op in &ops {
